@@ -119,6 +119,11 @@ WITNESS = [
     [{"op": "put", "k": 1, "c": "E"}, {"op": "abort", "k": 1, "c": "E"}, {"op": "abort", "k": 2, "c": "E"}, {"op": "abort", "k": 1, "c": "A"},
      {"op": "put", "k": 2, "c": "A"}, {"op": "abort", "k": 2, "c": "C"}, {"op": "put", "k": 3, "c": "B"}, {"op": "abort", "k": 3, "c": "G"},
      {"op": "put", "k": 3, "c": "C"}, {"op": "reopen"}],
+    # ONE range removal releases a content held by two / three of the removed keys while another content stays alive
+    [{"op": "put", "k": 1, "c": "A"}, {"op": "put", "k": 2, "c": "A"}, {"op": "put", "k": 3, "c": "G"}, {"op": "delr", "lo": ["I", 1], "hi": ["I", 2]},
+     {"op": "reopen"}, {"op": "put", "k": 1, "c": "G"}, {"op": "put", "k": 2, "c": "G"}, {"op": "put", "k": 4, "c": "C"},
+     {"op": "delr", "lo": ["U", 0], "hi": ["I", 3]}, {"op": "put", "k": 2, "c": "E"}, {"op": "put", "k": 3, "c": "E"}, {"op": "put", "k": 1, "c": "C"},
+     {"op": "delr", "lo": ["X", 1], "hi": ["X", 4]}, {"op": "reopen"}, {"op": "delr", "lo": ["U", 0], "hi": ["U", 0]}, {"op": "reopen"}],
 ]
 
 
@@ -156,6 +161,29 @@ def random_walks(num, depth, rnd, keys=(1, 2, 3, 4), contents=("A", "B", "E", "C
     return out
 
 
+def sharing_walks(num, depth, rnd):
+    """few contents over all four keys, many range removals: one operation releases a content held by several of its keys"""
+    out = []
+    for _ in range(num):
+        cs = rnd.sample(["A", "B", "E", "C", "G"], 2)
+        ops = []
+        for _ in range(depth):
+            r = rnd.random()
+            if r < 0.55:
+                ops.append({"op": "put", "k": rnd.randint(1, 4), "c": cs[0] if rnd.random() < 0.7 else cs[1]})
+            elif r < 0.85:
+                a, b = sorted((rnd.randint(1, 4), rnd.randint(1, 4)))
+                if a == b:
+                    a, b = max(1, a - 1), min(4, b + 1)
+                ops.append({"op": "delr", "lo": rnd.choice([["U", 0], ["I", a]]), "hi": rnd.choice([["U", 0], ["I", b]])})
+            elif r < 0.93:
+                ops.append({"op": "del", "k": rnd.randint(1, 4)})
+            else:
+                ops.append({"op": rnd.choice(["reopen", "ckpt"])})
+        out.append(ops)
+    return out
+
+
 def dedupe_prefixes(oplists):
     """drop op lists that are a strict prefix of another (every prefix is checked line by line anyway)"""
     keys = sorted(json.dumps(o)[:-1] for o in oplists)
@@ -172,14 +200,14 @@ def sources(tier, prop, rnd):
     if tier == "quick":
         hist = gen_scenarios(dict(GEN_BASE, MaxLen=3), "ViewAll")
         walks = gen_scenarios(dict(GEN_BASE, MaxLen=14, GenContents='{"A", "B", "E"}', Ranges=("<-", "AllRanges")), "ViewAll", simulate=(60, 20))
-        rw = random_walks(40, 25, rnd)
+        rw = random_walks(40, 25, rnd) + sharing_walks(40, 16, rnd)
     else:
         hist = gen_scenarios(dict(GEN_BASE, MaxLen=4), "ViewAll", timeout=1200)
         cover = gen_scenarios(dict(GEN_BASE, MaxLen=5, LeafOnly="FALSE", Ranges=("<-", "OneRange")), "ViewState", timeout=1200)
         hist = hist + dedupe_prefixes(cover)
         walks = gen_scenarios(dict(GEN_BASE, MaxLen=40, GenKeys="{1, 2, 3}", GenContents='{"A", "B", "E", "G"}', Ranges=("<-", "AllRanges")),
                               "ViewAll", simulate=(600, 60), timeout=1200)
-        rw = random_walks(1500, 60, rnd)
+        rw = random_walks(1500, 60, rnd) + sharing_walks(1500, 24, rnd)
     return hist, walks + rw + WITNESS
 
 
@@ -279,6 +307,13 @@ def build_scenarios(prop, tier, rnd):
                 rd.append([{"op": "put", "k": 1, "c": c}, {"op": "put", "k": 2, "c": c}, {"op": "rdopen", "k": 2, "id": 7},
                            {"op": "delr", "lo": ["U", 0], "hi": ["U", 0]}, {"op": "put", "k": 3, "c": c}, {"op": "rdopen", "k": 3, "id": 8},
                            {"op": "put", "k": 3, "c": c}, {"op": "reopen"}, {"op": "del", "k": 3}, {"op": "rddrain", "id": 7}, {"op": "rddrain", "id": 8}])
+            # Sync mode: whatever is visible under cas/ has been synced before it got there - also a re-put of a content that
+            # is stored already must not put an unsynced file in its place (power-loss images, judged by the blob conjunct)
+            pw = [[{"op": "put", "k": 1, "c": "G"}, {"op": "put", "k": 2, "c": "G"}, {"op": "put", "k": 1, "c": "G"}],
+                  [{"op": "put", "k": 1, "c": "A"}, {"op": "del", "k": 1}, {"op": "put", "k": 1, "c": "A"}, {"op": "put", "k": 2, "c": "A"}],
+                  [{"op": "put", "k": 1, "c": "C"}, {"op": "put", "k": 1, "c": "C"}, {"op": "put", "k": 3, "c": "H"}, {"op": "put", "k": 2, "c": "H"}]]
+            for j, ops in enumerate(pw if q else pw + walks[:40]):
+                add(ops, {"kt": ["string", "bytes"][j % 2], "n": [2, 3, 1][j % 3], "sync": True}, {"mode": "power", "nested": False, "cont": False}, chunk=j)
             for w in walks[: (6 if q else 100)]:
                 w2 = []
                 for j, o in enumerate(w):
@@ -319,6 +354,14 @@ def build_scenarios(prop, tier, rnd):
                 [{"kind": "corrupt", "c": "G"}], [{"kind": "resize", "c": "G"}], [{"kind": "corrupt", "c": "C"}],
                 [{"kind": "corrupt", "c": "G"}, {"kind": "delete", "c": "E"}, {"kind": "orphan", "c": "C"}],
                 [{"kind": "staging", "name": "x"}, {"kind": "stagingdir"}],
+                # missing AND orphaned at once, with as many / more orphans than missing blobs (a count-based short cut
+                # would call the store complete); for each base history at least one of these deletes a live content
+                [{"kind": "delete", "c": "A"}, {"kind": "orphan", "c": "C"}],
+                [{"kind": "delete", "c": "A"}, {"kind": "orphan", "c": "C"}, {"kind": "orphan", "c": "E"}, {"kind": "orphan", "c": "H"}],
+                [{"kind": "delete", "c": "G"}, {"kind": "orphan", "c": "A"}],
+                [{"kind": "delete", "c": "G"}, {"kind": "delete", "c": "B"}, {"kind": "orphan", "c": "A"}, {"kind": "orphan", "c": "H"}, {"kind": "corrupt", "c": "C"}],
+                [{"kind": "delete", "c": "A"}, {"kind": "delete", "c": "B"}, {"kind": "orphan", "c": "G"}],
+                [{"kind": "delete", "c": "E"}, {"kind": "junk", "level": 3, "name": "stray"}, {"kind": "orphan", "c": "A"}, {"kind": "staging", "name": ".tmpLEFT"}],
                 [{"kind": "upper", "c": "A"}], [{"kind": "split", "c": "A"}],
             ]
             for i, ops in enumerate(base):
